@@ -8,6 +8,7 @@ import (
 	"fmt"
 	"sort"
 	"strings"
+	"time"
 )
 
 type decKind uint8
@@ -122,7 +123,10 @@ type Exec struct {
 	maxFrames int
 	frames    int
 
-	queries int
+	queries      int
+	slowHook     func(time.Duration)
+	solverSpent  time.Duration
+	solverBudget time.Duration
 }
 
 func (e *Exec) end(kind outcomeKind, format string, args ...interface{}) {
@@ -141,7 +145,29 @@ func (e *Exec) evalModel(t *Term) bool {
 
 func (e *Exec) check(extra *Term) (Result, map[string]uint64) {
 	e.queries++
+	if e.solverBudget > 0 && e.solverSpent > e.solverBudget {
+		e.end(oUnknown, "per-path solver time budget (%v) exhausted after %d queries", e.solverBudget, e.queries)
+	}
+	t0 := time.Now()
 	r, m, err := e.solver.Check(extra, true)
+	e.solverSpent += time.Since(t0)
+	if d := time.Since(t0); d > 2*time.Second && e.slowHook != nil {
+		e.slowHook(d)
+	}
+	if err == nil && r == Sat {
+		// never trust a model blindly: it must satisfy the path condition and the queried condition
+		memo := map[int]uint64{}
+		bad := extra != nil && e.ctx.Eval(extra, m, memo) == 0
+		for _, c := range e.pc {
+			if bad {
+				break
+			}
+			bad = e.ctx.Eval(c, m, memo) == 0
+		}
+		if bad {
+			e.end(oUnknown, "solver model does not satisfy the path condition (model parse or solver defect)")
+		}
+	}
 	if err != nil {
 		e.end(oUnknown, "solver: %v", err)
 	}
